@@ -955,3 +955,58 @@ PROPS["C07"] = Prop(
     "inside every item, k-th target write fails, k-th save fails}; ALL sequences of depth 2 (quick) / 3 (thorough) over an 8 / 7 letter alphabet per "
     "configuration plus random sequences of length up to 8 / 12. After every step: target bytes, outboard bytes, valid_ranges. non-trivial = at least two steps",
     assumptions=DEC_ASSUME + ["blobs contain no all-zero chunk (otherwise 'exactly the delivered groups' is false of any implementation)"])
+
+
+# ------------------------------------------------------------------ C19 serde
+F_SERDE = Family("serde", "Run.RunSerde", "run_serde", "holds_serde", lambda a, o: True)
+F_SERDE.shard_cases = 60
+MSGS = ["boom", "", "with \"quotes\" and \\ backslash", "\u00fcn\u00efc\u00f6d\u00e9 \u2713", "a:b:c", "line\nbreak\ttab"]
+
+
+def gen_c19(tier, rng):
+    cases = []
+    nrand = 40 if tier == "quick" else 400
+
+    def node():
+        lvl = rng.randrange(0, 53)
+        k = rng.randrange(0, 1 << rng.randrange(1, 62 - lvl))
+        return (2 * k + 1) * (1 << lvl) - 1
+
+    lens = [0, 1, 63, 64, 65, 1024, 16 * 1024] + ([64 * 1024] if tier == "thorough" else [])
+    for fmt in (0, 1):
+        for x in [0, 1, 127, 128, 16383, 16384, (1 << 32), (1 << 63), M64] + [node() for _ in range(nrand)]:
+            cases.append(("serde", [0, fmt, x]))
+            cases.append(("serde", [1, fmt, x]))
+        for _ in range(nrand):
+            cases.append(("serde", [2, fmt, node(), seed(rng)]))
+            cases.append(("serde", [4, fmt, 0, node(), seed(rng)]))
+            cases.append(("serde", [5, fmt, 1, node(), seed(rng)]))
+        for ln in lens + [rng.randrange(0, 3000) for _ in range(nrand // 4)]:
+            off = rng.choice([0, 1024, rng.randrange(0, 1 << 62), M64])
+            cases.append(("serde", [3, fmt, off, ln, seed(rng)]))
+            cases.append(("serde", [4, fmt, 1, off, ln, seed(rng)]))
+            cases.append(("serde", [5, fmt, 2, off, ln, seed(rng)]))
+        for v in range(0, 5):
+            for x in (0, 5, node(), M64):
+                cases.append(("serde", [6, fmt, v, x]))
+                cases.append(("serde", [5, fmt, 3, v, x]))
+        for kc in range(0, 5):
+            for m in MSGS:
+                mb = list(m.encode())
+                cases.append(("serde", [6, fmt, 5, kc, len(mb)] + mb))
+                cases.append(("serde", [5, fmt, 3, 5, kc, len(mb)] + mb))
+        cases.append(("serde", [5, fmt, 0, rng.randrange(0, 1 << 63)]))
+        cases.append(("serde", [5, fmt, 0, M64]))
+        cases.append(("serde", [5, fmt, 4]))
+    return cases
+
+
+PROPS["C19"] = Prop(
+    [F_SERDE], gen_c19,
+    "serde: TreeNode / ChunkNum over boundary values and random nodes of all levels, Parent with random hashes, Leaf with payload lengths "
+    "0, 1, 63, 64, 65, 1 KiB, 16 KiB (64 KiB thorough) and random, BaoContentItem / EncodedItem in every variant, EncodeError in every variant incl. "
+    "io errors of five kinds with messages containing quotes, backslashes, non-ASCII and control characters; postcard (bytes compared with the "
+    "model's wire format, round trip) and serde_json (text compared for scalar/struct types, round trip for all). non-trivial = all",
+    trusted=["serde derive expansion and serde_json's lexer / printer are trusted at the data-model level (C19 is partial there: the JSON side is "
+             "carried by the round-trip runs, the postcard side by theorems)", "postcard 1.0.8 wire format as modelled in Model/Serde.v"],
+)
